@@ -54,6 +54,8 @@ def scenario(sid, workload, timing, faults, dials=(), connacks=(), opts=None, in
             r["fs"] = w["fs"]
         elif w["k"] == "handle":
             r["h"] = w["h"]
+            if w.get("swap"):
+                r["swap"] = w["swap"]
         reqs.append(r)
     plan = {}
     if faults:
@@ -353,7 +355,7 @@ def l2_eligible(sc, res):
     o = sc.get("opts", {})
     if o.get("pingMs") or o.get("hookEvents") or o.get("cleanSession") or o.get("grantCap") is not None or o.get("promptAcks"):
         return False
-    if any(r["k"] not in ("pub", "sub", "unsub", "peerclose", "sleep", "release", "handle") for r in sc["reqs"]):
+    if any(r["k"] not in ("pub", "sub", "unsub", "peerclose", "sleep", "release", "handle") or r.get("swap") for r in sc["reqs"]):
         return False
     return True
 
